@@ -66,10 +66,10 @@ func fullKey(short string) string {
 }
 
 type runResult struct {
-	obls     []*Obligation
-	errs     []string
-	funcs    []string
-	hashes   map[string]string
+	obls   []*Obligation
+	errs   []string
+	funcs  []string
+	hashes map[string]string
 }
 
 func verifyFunctions(prog *Program, keys []string, noKF bool) *runResult {
@@ -134,6 +134,8 @@ func main() {
 		os.Exit(cmdCheck(os.Args[2:]))
 	case "dev":
 		os.Exit(cmdDev(os.Args[2:]))
+	case "replay":
+		os.Exit(cmdReplay(os.Args[2:]))
 	case "maploops":
 		prog, err := loadProgram("/repo", []string{"./..."})
 		if err != nil {
@@ -385,10 +387,24 @@ func cmdCheck(args []string) int {
 			"solver_status": os0.Status, "solver_output": os0.Output, "paths_failed": len(failed[n]),
 		}
 		noInput := true
-		if os0.Status == "sat" || os0.Cover {
-			model := prog.getModel(os0, axioms, tmp, timeout)
-			payload["solver_model"] = model
-			payload["note"] = "the model is a counterexample to the verification condition (entry state of the function plus havocked loop/call states); it was not concretised into a Go test"
+		if !os0.Cover {
+			if os0.Status == "sat" {
+				payload["solver_model"] = prog.getModel(os0, axioms, tmp, timeout)
+			}
+			var rp *replayResult
+			for _, cand := range failed[n] {
+				rp = prog.tryReplay(cand, axioms, *repo)
+				if rp.Reproduced {
+					break
+				}
+			}
+			payload["replay_result"] = rp
+			if rp != nil && rp.Reproduced {
+				noInput = false
+				payload["note"] = "the solver model was concretised into the Go test in replay_result.test_source, injected into the package with go test -overlay, and it fails on the real code (output in replay_result.output)"
+			} else {
+				payload["note"] = "solver answer " + os0.Status + "; no failing input was confirmed on the real code: " + rp.Reason
+			}
 		} else {
 			payload["note"] = "no solver produced a model (" + os0.Status + "); the obligation was discharged on the unchanged tree and is not discharged on this tree"
 		}
@@ -519,5 +535,41 @@ func finish(cfg PropCfg, verif, tier string, seed int, t0 time.Time, rr *runResu
 	if len(violations) > 0 {
 		return 1
 	}
+	return 0
+}
+
+// cmdReplay re-runs the stored counterexample test of a replay file against the current tree.
+func cmdReplay(args []string) int {
+	fs := flag.NewFlagSet("replay", flag.ExitOnError)
+	repo := fs.String("repo", "/repo", "")
+	_ = fs.String("prop", "", "")
+	file := fs.String("file", "", "")
+	fs.Parse(args)
+	data, err := os.ReadFile(*file)
+	if err != nil {
+		fmt.Fprintln(os.Stderr, err)
+		return 2
+	}
+	var payload struct {
+		Obligation string        `json:"obligation"`
+		Property   string        `json:"property"`
+		SMTFile    string        `json:"smt_file"`
+		Replay     *replayResult `json:"replay_result"`
+	}
+	if err := json.Unmarshal(data, &payload); err != nil {
+		fmt.Fprintln(os.Stderr, err)
+		return 2
+	}
+	if payload.Replay == nil || payload.Replay.TestSource == "" {
+		fmt.Printf("obligation %s: no executable counterexample is stored (no-failing-input-found); the SMT query is %s\n", payload.Obligation, payload.SMTFile)
+		return 0
+	}
+	out, failed := runReplayTest(*repo, payload.Replay.TestPkgDir, payload.Replay.TestSource, payload.Replay.TestName)
+	fmt.Print(out)
+	if failed {
+		fmt.Printf("VIOLATION property=%s replay=%s\n", payload.Property, *file)
+		return 1
+	}
+	fmt.Println("the stored counterexample no longer fails on this tree")
 	return 0
 }
